@@ -105,6 +105,13 @@ def compare(acc, spec, cpu, w, row, rng, full, cfgov=None):
             acc.violation('%s:operands:%s:valid-encoding-rejected' % (spec.prop, row.name), {'word': w, 'nbits': spec.nbits, 'cpsr': cpsr, 'cfg': cfgov},
                           {'outcome': name, 'reference_operands': {k: norm(v) for k, v in ops.items()}})
             return
+        if name not in [c.__name__ for c in type(obj).__mro__]:
+            # from_bitarray of the selected class handed back an object of an unrelated class (an alias 'SEE ...' implemented at operand level): the word
+            # then executes as that other instruction. Accepted only if that other instruction is what the reference table says this word is - it is not,
+            # the class-selection check has just matched the table's row with the selected class
+            acc.violation('%s:operands:%s:decoded-as-another-class' % (spec.prop, row.name), {'word': w, 'nbits': spec.nbits, 'cpsr': cpsr, 'cfg': cfgov},
+                          {'selected_class': name, 'object_class': type(obj).__name__, 'reference_operands': {k: norm(v) for k, v in ops.items()}})
+            return
         bad = {}
         for k, v in ops.items():
             if k in SKIP_KEYS or v is None:
